@@ -19,6 +19,12 @@ import VotelibProofs.Lemmas.PermScore
 import VotelibProofs.Lemmas.RenameApproval
 import VotelibProofs.Lemmas.RenameScore
 import VotelibProofs.Lemmas.RenameCondorcetConvert
+import VotelibProofs.Lemmas.PermCondorcetRules2
+import VotelibProofs.Lemmas.PermScoreMJ
+import VotelibProofs.Lemmas.RenameScoreMJ
+import VotelibProofs.Lemmas.PermSTV8
+import VotelibProofs.Lemmas.PermTrans
+import VotelibProofs.Lemmas.PermSymmetric2
 namespace VL.C10
 open VL
 
@@ -26,6 +32,18 @@ open VL
   `SlotsEquiv` (Lemmas/PermBase.lean): two selection results that agree up to the order of the individually elected
   candidates and the order in which a tie lists its members — same elected set, same tie (as a set), same number of seats
   carried by the tie.  `ExceptEquiv R`: the same exception, or results related by `R`. -/
+
+/-- `SlotsEquiv` is symmetric and transitive (and reflexive on every result of that shape) -/
+theorem slotsEquiv_symm {r₁ r₂ : List Slot} (h : SlotsEquiv r₁ r₂) : SlotsEquiv r₂ r₁ := Perm.slotsEquiv_symm h
+theorem slotsEquiv_trans {r₁ r₂ r₃ : List Slot} (h₁ : SlotsEquiv r₁ r₂) (h₂ : SlotsEquiv r₂ r₃) : SlotsEquiv r₁ r₃ :=
+  Perm.slotsEquiv_trans h₁ h₂
+
+/-- what `SlotsEquiv` preserves: who is individually elected and who is a member of the reported tie -/
+theorem slotsEquiv_elected {r₁ r₂ : List Slot} (h : SlotsEquiv r₁ r₂) (c : Cand) :
+    (Perm.Elected c r₁ ↔ Perm.Elected c r₂) ∧ (Perm.InTie c r₁ ↔ Perm.InTie c r₂) ∧ r₁.length = r₂.length := by
+  refine ⟨Perm.elected_equiv h c, Perm.inTie_equiv h c, ?_⟩
+  obtain ⟨e₁, e₂, T₁, T₂, m, h1, h2, he, _⟩ := h
+  rw [h1, h2]; simp [he.length_eq]
 
 theorem isNth_perm {v₁ v₂ : Votes} (h : v₁.Perm v₂) {n : Nat} {t : Rat} (ht : IsNth v₁ n t) : IsNth v₂ n t :=
   Perm.isNth_perm h ht
@@ -287,6 +305,138 @@ theorem schwartz_rule_perm {p₁ p₂ : Convert.RProfile} (h : p₁.Perm p₂) :
     (PreConv.condorcetSeatless Condorcet.schwartzSet p₁).Perm (PreConv.condorcetSeatless Condorcet.schwartzSet p₂) :=
   Perm.schwartzRule_perm h
 
+/-- **Kemeny-Young on a pairwise dict: insertion-order independence** — the very same answer -/
+theorem kemeny_young_perm {v₁ v₂ : Condorcet.Pairwise} (h : v₁.Perm v₂) (hn : (v₁.map (·.1)).Nodup) (n : Nat) :
+    Condorcet.kemenyYoung v₁ n = Condorcet.kemenyYoung v₂ n := Perm.kemenyYoung_perm h hn n
+
+/-- **Ranked pairs on a pairwise dict: insertion-order independence** when the (score, count) sort keys separate the pairs
+    (`Perm.RPDistinct`, decidable) — the property's own restriction to pairwise distinct strengths -/
+theorem ranked_pairs_perm {v₁ v₂ : Condorcet.Pairwise} (h : v₁.Perm v₂) (sc : Condorcet.Scorer) (hd : Perm.RPDistinct sc v₁) (n : Nat) :
+    Condorcet.rankedPairs sc v₁ n = Condorcet.rankedPairs sc v₂ n := Perm.rankedPairs_perm h sc hd n
+
+/-- **Kemeny-Young on a ranked profile: ballot-order independence** -/
+theorem kemeny_young_rule_perm {p₁ p₂ : Convert.RProfile} (h : p₁.Perm p₂) (n : Nat) :
+    PreConv.condorcetRule Condorcet.kemenyYoung p₁ n = PreConv.condorcetRule Condorcet.kemenyYoung p₂ n :=
+  Perm.kemenyRule_perm h n
+
+/-- **Ranked pairs on a ranked profile: ballot-order independence** under distinct strengths -/
+theorem ranked_pairs_rule_perm (sc : Condorcet.Scorer) {p₁ p₂ : Convert.RProfile} (h : p₁.Perm p₂)
+    (hd : Perm.RPDistinct sc (Convert.rankedToCondorcet true p₁)) (n : Nat) :
+    PreConv.condorcetRule (Condorcet.rankedPairs sc) p₁ n = PreConv.condorcetRule (Condorcet.rankedPairs sc) p₂ n :=
+  Perm.rankedPairsRule_perm sc h hd n
+
+/-! ### renaming (injective σ); on a pairwise dict the renamed outcome exactly, on a ranked profile up to `SlotsEquiv` -/
+
+theorem copeland_rename (σ : Cand → Cand) (hσ : Function.Injective σ) (v : Condorcet.Pairwise) (n : Nat) :
+    Condorcet.copeland false (Perm.renPairwise σ v) n = (Condorcet.copeland false v n).map (renSlot σ) :=
+  Perm.copeland_false_ren σ hσ v n
+
+/-- second-order Copeland included: up to `SlotsEquiv`, because the model lists the tied set in id order -/
+theorem copeland_rename_both (σ : Cand → Cand) (hσ : Function.Injective σ) (so : Bool) (v : Condorcet.Pairwise) (n : Nat) :
+    SlotsEquiv (Condorcet.copeland so (Perm.renPairwise σ v) n) ((Condorcet.copeland so v n).map (renSlot σ)) :=
+  Perm.copeland_ren σ hσ so v n
+
+theorem minimax_rename (σ : Cand → Cand) (hσ : Function.Injective σ) (sc : Condorcet.Scorer) (v : Condorcet.Pairwise) (n : Nat) :
+    Condorcet.minimax sc (Perm.renPairwise σ v) n = (Condorcet.minimax sc v n).map (renSlot σ) := Perm.minimax_ren σ hσ sc v n
+
+theorem schulze_rename (σ : Cand → Cand) (hσ : Function.Injective σ) (v : Condorcet.Pairwise) (n : Nat) :
+    Condorcet.schulze (Perm.renPairwise σ v) n = (Condorcet.schulze v n).map (renSlot σ) := Perm.schulze_ren σ hσ v n
+
+theorem condorcet_winner_rename (σ : Cand → Cand) (hσ : Function.Injective σ) (v : Condorcet.Pairwise) :
+    Condorcet.condorcetWinner (Perm.renPairwise σ v) = (Condorcet.condorcetWinner v).map σ := Perm.condorcetWinner_ren σ hσ v
+
+theorem smith_set_rename (σ : Cand → Cand) (hσ : Function.Injective σ) (v : Condorcet.Pairwise) :
+    Condorcet.smithSet (Perm.renPairwise σ v) = (Condorcet.smithSet v).map σ := Perm.smithSet_ren σ hσ v
+
+theorem schwartz_set_rename (σ : Cand → Cand) (hσ : Function.Injective σ) (v : Condorcet.Pairwise) :
+    Condorcet.schwartzSet (Perm.renPairwise σ v) = (Condorcet.schwartzSet v).map σ := Perm.schwartzSet_ren σ hσ v
+
+theorem kemeny_young_rename (σ : Cand → Cand) (hσ : Function.Injective σ) (v : Condorcet.Pairwise) (n : Nat) :
+    Condorcet.kemenyYoung (Perm.renPairwise σ v) n = (Condorcet.kemenyYoung v n).map (fun r => r.map (renSlot σ)) :=
+  Perm.kemenyYoung_ren σ hσ v n
+
+/-- ranked pairs: renaming equivariance without any restriction on the strengths -/
+theorem ranked_pairs_rename (σ : Cand → Cand) (hσ : Function.Injective σ) (sc : Condorcet.Scorer) (v : Condorcet.Pairwise) (n : Nat) :
+    Condorcet.rankedPairs sc (Perm.renPairwise σ v) n = (Condorcet.rankedPairs sc v n).map (fun r => r.map (renSlot σ)) :=
+  Perm.rankedPairs_ren σ hσ sc v n
+
+theorem copeland_rule_rename (σ : Cand → Cand) (hσ : Function.Injective σ) (so : Bool) (p : Convert.RProfile)
+    (hb : ∀ bw ∈ p, (Convert.ballotCands bw.1).Nodup) (n : Nat) :
+    SlotsEquiv (PreConv.condorcetRule (Condorcet.copeland so) (Perm.renRProfile σ p) n)
+      ((PreConv.condorcetRule (Condorcet.copeland so) p n).map (renSlot σ)) := Perm.copelandRule_ren_so σ hσ so p hb n
+
+theorem minimax_rule_rename (σ : Cand → Cand) (hσ : Function.Injective σ) (sc : Condorcet.Scorer) (p : Convert.RProfile)
+    (hb : ∀ bw ∈ p, (Convert.ballotCands bw.1).Nodup) (n : Nat) :
+    SlotsEquiv (PreConv.condorcetRule (Condorcet.minimax sc) (Perm.renRProfile σ p) n)
+      ((PreConv.condorcetRule (Condorcet.minimax sc) p n).map (renSlot σ)) := Perm.minimaxRule_ren σ hσ sc p hb n
+
+theorem schulze_rule_rename (σ : Cand → Cand) (hσ : Function.Injective σ) (p : Convert.RProfile)
+    (hb : ∀ bw ∈ p, (Convert.ballotCands bw.1).Nodup) (hw : ∀ bw ∈ p, 0 ≤ bw.2) (n : Nat) :
+    SlotsEquiv (PreConv.condorcetRule Condorcet.schulze (Perm.renRProfile σ p) n)
+      ((PreConv.condorcetRule Condorcet.schulze p n).map (renSlot σ)) := Perm.schulzeRule_ren σ hσ p hb hw n
+
+theorem condorcet_winner_rule_rename (σ : Cand → Cand) (hσ : Function.Injective σ) (p : Convert.RProfile)
+    (hb : ∀ bw ∈ p, (Convert.ballotCands bw.1).Nodup) :
+    PreConv.condorcetSeatless Condorcet.condorcetWinner (Perm.renRProfile σ p) =
+      (PreConv.condorcetSeatless Condorcet.condorcetWinner p).map σ := Perm.condorcetWinnerRule_ren σ hσ p hb
+
+theorem smith_rule_rename (σ : Cand → Cand) (hσ : Function.Injective σ) (p : Convert.RProfile)
+    (hb : ∀ bw ∈ p, (Convert.ballotCands bw.1).Nodup) :
+    (PreConv.condorcetSeatless Condorcet.smithSet (Perm.renRProfile σ p)).Perm
+      ((PreConv.condorcetSeatless Condorcet.smithSet p).map σ) := Perm.smithRule_ren σ hσ p hb
+
+theorem schwartz_rule_rename (σ : Cand → Cand) (hσ : Function.Injective σ) (p : Convert.RProfile)
+    (hb : ∀ bw ∈ p, (Convert.ballotCands bw.1).Nodup) :
+    (PreConv.condorcetSeatless Condorcet.schwartzSet (Perm.renRProfile σ p)).Perm
+      ((PreConv.condorcetSeatless Condorcet.schwartzSet p).map σ) := Perm.schwartzRule_ren σ hσ p hb
+
+theorem kemeny_young_rule_rename (σ : Cand → Cand) (hσ : Function.Injective σ) (p : Convert.RProfile)
+    (hb : ∀ bw ∈ p, (Convert.ballotCands bw.1).Nodup) (n : Nat) :
+    PreConv.condorcetRule Condorcet.kemenyYoung (Perm.renRProfile σ p) n =
+      (PreConv.condorcetRule Condorcet.kemenyYoung p n).map (fun r => r.map (renSlot σ)) := Perm.kemenyRule_ren σ hσ p hb n
+
+/-! ## single transferable vote, Gregory transfers (model of C03/C04)
+  `ds` is the (unused by Gregory) list of oracle draws of the model's engine interface. -/
+
+/-- **STV (Gregory): ballot-order independence** for every configuration (quota or none, accept-equal, mandatory quota,
+    elimination step): the same exception, or the same winners (each once; candidates elected in the same count with equal
+    totals may swap places) -/
+theorem stv_perm (cfg : STV.Cfg) {p₁ p₂ : STV.Profile} (hp : p₁.Perm p₂) (hn : (p₁.map (·.1)).Nodup) (n : Nat) (ds : List STV.Draw) :
+    ExceptEquiv List.Perm (STV.selectorEvaluate STV.gregory cfg p₁ n ds) (STV.selectorEvaluate STV.gregory cfg p₂ n ds) :=
+  Perm.stv_perm cfg hp hn n ds
+
+/-- the list itself is the same whenever no two candidates elected in the same count hold equal totals -/
+theorem stv_perm_eq (cfg : STV.Cfg) {p₁ p₂ : STV.Profile} (hp : p₁.Perm p₂) (hn : (p₁.map (·.1)).Nodup) (n : Nat)
+    (ds : List STV.Draw) (hf : Perm.stvTieFree cfg p₁ n ds = true) :
+    STV.selectorEvaluate STV.gregory cfg p₁ n ds = STV.selectorEvaluate STV.gregory cfg p₂ n ds :=
+  Perm.stv_perm_eq cfg hp hn n ds hf
+
+/-- … and not in general: equally placed winners do swap (the difference the property allows) -/
+theorem stv_order_of_equal_winners_witness :
+    ¬ ∀ (cfg : STV.Cfg) (p₁ p₂ : STV.Profile) (n : Nat), p₁.Perm p₂ → (p₁.map (·.1)).Nodup →
+      STV.selectorEvaluate STV.gregory cfg p₁ n [] = STV.selectorEvaluate STV.gregory cfg p₂ n [] :=
+  Perm.stv_selector_order_witness
+
+/-- **STV distributor (Gregory): ballot-order independence**, also in the order of `prev_gains` / `max_seats` -/
+theorem stv_distributor_perm (cfg : STV.Cfg) {p₁ p₂ : STV.Profile} (hp : p₁.Perm p₂) (hn : (p₁.map (·.1)).Nodup) (n : Nat)
+    {prev₁ prev₂ maxS₁ maxS₂ : STV.Seats} (hprev : prev₁.Perm prev₂) (hprevn : (prev₁.map (·.1)).Nodup)
+    (hmax : maxS₁.Perm maxS₂) (hmaxn : (maxS₁.map (·.1)).Nodup) (ds : List STV.Draw) :
+    ExceptEquiv (fun s₁ s₂ => s₁.Perm s₂ ∧ (s₁.map (·.1)).Nodup ∧ ∀ c, STV.seatsGet s₁ c = STV.seatsGet s₂ c)
+      (STV.distributorEvaluate STV.gregory cfg { votes := p₁, nSeats := n, prev := prev₁, maxS := maxS₁ } ds)
+      (STV.distributorEvaluate STV.gregory cfg { votes := p₂, nSeats := n, prev := prev₂, maxS := maxS₂ } ds) :=
+  Perm.stv_distributor_perm cfg hp hn n hprev hprevn hmax hmaxn ds
+
+/-- **STV (Gregory): renaming equivariance** for every injective renaming — the very same exception, or the renamed list in the
+    same order (`Perm.Stv.renPile σ` renames every candidate on every ballot; a shared rank keeps its listing order) -/
+theorem stv_rename (σ : Cand → Cand) (hσ : Function.Injective σ) (cfg : STV.Cfg) (p : STV.Profile) (n : Nat) (ds : List STV.Draw) :
+    STV.selectorEvaluate STV.gregory cfg (Perm.Stv.renPile σ p) n ds =
+      (STV.selectorEvaluate STV.gregory cfg p n ds).map (List.map σ) := Perm.stv_rename hσ cfg p n ds
+
+/-- **STV distributor (Gregory): renaming equivariance** (votes, previous gains and caps renamed) -/
+theorem stv_distributor_rename (σ : Cand → Cand) (hσ : Function.Injective σ) (cfg : STV.Cfg) (inp : STV.Input) (ds : List STV.Draw) :
+    STV.distributorEvaluate STV.gregory cfg (Perm.Stv.renInput σ inp) ds =
+      (STV.distributorEvaluate STV.gregory cfg inp ds).map (Perm.Stv.renSeats σ) := Perm.stv_distributor_rename hσ cfg inp ds
+
 /-! ## proportional approval voting and score voting (models of C12)
   `Appr.WF p`: every approval ballot is duplicate-free (a frozenset). -/
 
@@ -334,6 +484,18 @@ theorem ranked_to_condorcet_rename (σ : Cand → Cand) (hσ : Function.Injectiv
     (Convert.rankedToCondorcet ab (Perm.renRProfile σ p)).Perm (Perm.renPairwise σ (Convert.rankedToCondorcet ab p)) :=
   Perm.rankedToCondorcet_ren σ hσ ab p hb
 
+/-- **Majority judgment (both tie-breakers): ballot-order independence**, every configuration -/
+theorem majority_judgment_perm (tb : Score.TieBreaking) (cfg : Score.Cfg) {p₁ p₂ : Score.SProfile} (h : p₁.Perm p₂) (n : Nat) :
+    ExceptEquiv SlotsEquiv (Score.majorityJudgment tb cfg p₁ n) (Score.majorityJudgment tb cfg p₂ n) :=
+  Perm.majorityJudgment_perm tb cfg h n
+
+/-- **Majority judgment: renaming equivariance** — proved for order-preserving renamings only (the model breaks ties over
+    the tied candidates in id order; the general statement is listed as unproved) -/
+theorem majority_judgment_rename_mono_partial (σ : Cand → Cand) (hmono : StrictMono σ) (tb : Score.TieBreaking) (cfg : Score.Cfg)
+    (p : Score.SProfile) (n : Nat) :
+    Score.majorityJudgment tb cfg (Perm.renScore σ p) n = (Score.majorityJudgment tb cfg p n).map (List.map (renSlot σ)) :=
+  Perm.majorityJudgment_rename_mono hmono tb cfg p n
+
 /-! ## the symmetric-candidates corollary
   A renaming σ that maps the election onto a reordering of itself is a symmetry of the election (e.g. the transposition of two
   candidates in perfectly symmetric positions).  Order independence + renaming equivariance make the outcome σ-invariant:
@@ -367,6 +529,55 @@ theorem ha_symmetric_parties (σ : Cand → Cand) (hσ : Function.Injective σ) 
     haSeats cfg (σ c) = haSeats cfg c :=
   Perm.ha_symmetric σ hσ cfg hprev hcaps hn hsym c
 
+/-- **Symmetric candidates under Copeland (both orders), minimax, Schulze** (ranked profile mapped onto a reordering of itself) -/
+theorem copeland_symmetric_candidates (σ : Cand → Cand) (hσ : Function.Injective σ) (so : Bool) (p : Convert.RProfile)
+    (hb : ∀ bw ∈ p, (Convert.ballotCands bw.1).Nodup) (hsym : (Perm.renRProfile σ p).Perm p) (n : Nat) (c : Cand) :
+    (Perm.Elected (σ c) (PreConv.condorcetRule (Condorcet.copeland so) p n) ↔ Perm.Elected c (PreConv.condorcetRule (Condorcet.copeland so) p n)) ∧
+    (Perm.InTie (σ c) (PreConv.condorcetRule (Condorcet.copeland so) p n) ↔ Perm.InTie c (PreConv.condorcetRule (Condorcet.copeland so) p n)) :=
+  Perm.copelandRule_symmetric σ hσ so p hb hsym n c
+
+theorem minimax_symmetric_candidates (σ : Cand → Cand) (hσ : Function.Injective σ) (sc : Condorcet.Scorer) (p : Convert.RProfile)
+    (hb : ∀ bw ∈ p, (Convert.ballotCands bw.1).Nodup) (hsym : (Perm.renRProfile σ p).Perm p) (n : Nat) (c : Cand) :
+    (Perm.Elected (σ c) (PreConv.condorcetRule (Condorcet.minimax sc) p n) ↔ Perm.Elected c (PreConv.condorcetRule (Condorcet.minimax sc) p n)) ∧
+    (Perm.InTie (σ c) (PreConv.condorcetRule (Condorcet.minimax sc) p n) ↔ Perm.InTie c (PreConv.condorcetRule (Condorcet.minimax sc) p n)) :=
+  Perm.minimaxRule_symmetric σ hσ sc p hb hsym n c
+
+theorem schulze_symmetric_candidates (σ : Cand → Cand) (hσ : Function.Injective σ) (p : Convert.RProfile)
+    (hb : ∀ bw ∈ p, (Convert.ballotCands bw.1).Nodup) (hw : ∀ bw ∈ p, 0 ≤ bw.2) (hsym : (Perm.renRProfile σ p).Perm p) (n : Nat) (c : Cand) :
+    (Perm.Elected (σ c) (PreConv.condorcetRule Condorcet.schulze p n) ↔ Perm.Elected c (PreConv.condorcetRule Condorcet.schulze p n)) ∧
+    (Perm.InTie (σ c) (PreConv.condorcetRule Condorcet.schulze p n) ↔ Perm.InTie c (PreConv.condorcetRule Condorcet.schulze p n)) :=
+  Perm.schulzeRule_symmetric σ hσ p hb hw hsym n c
+
+/-- **Symmetric candidates and the Condorcet winner / Smith set / Schwartz set** -/
+theorem condorcet_sets_symmetric_candidates (σ : Cand → Cand) (hσ : Function.Injective σ) (p : Convert.RProfile)
+    (hb : ∀ bw ∈ p, (Convert.ballotCands bw.1).Nodup) (hsym : (Perm.renRProfile σ p).Perm p) (c : Cand) :
+    (σ c ∈ PreConv.condorcetSeatless Condorcet.condorcetWinner p ↔ c ∈ PreConv.condorcetSeatless Condorcet.condorcetWinner p) ∧
+    (σ c ∈ PreConv.condorcetSeatless Condorcet.smithSet p ↔ c ∈ PreConv.condorcetSeatless Condorcet.smithSet p) ∧
+    (σ c ∈ PreConv.condorcetSeatless Condorcet.schwartzSet p ↔ c ∈ PreConv.condorcetSeatless Condorcet.schwartzSet p) :=
+  ⟨Perm.condorcetWinnerRule_symmetric σ hσ p hb hsym c, Perm.smithRule_symmetric σ hσ p hb hsym c,
+    Perm.schwartzRule_symmetric σ hσ p hb hsym c⟩
+
+/-- **Symmetric candidates under STV (Gregory)**: both elected or both not -/
+theorem stv_symmetric_candidates (σ : Cand → Cand) (hσ : Function.Injective σ) (cfg : STV.Cfg) (p : STV.Profile)
+    (hn : (p.map (·.1)).Nodup) (hsym : p.Perm (Perm.Stv.renPile σ p)) (n : Nat) (ds : List STV.Draw) (r : List Cand)
+    (hr : STV.selectorEvaluate STV.gregory cfg p n ds = .ok r) (c : Cand) : σ c ∈ r ↔ c ∈ r :=
+  Perm.stv_symmetric σ hσ cfg p hn hsym n ds r hr c
+
+/-- **Symmetric candidates under score voting, PAV, SPAV** -/
+theorem score_voting_symmetric_candidates (σ : Cand → Cand) (hσ : Function.Injective σ) (cfg : Score.Cfg) (p : Score.SProfile)
+    (hsym : Perm.SameBallots p (Perm.renScore σ p)) (n : Nat) (r : List Slot) (hr : Score.scoreVoting cfg p n = .ok r) (c : Cand) :
+    (Perm.Elected (σ c) r ↔ Perm.Elected c r) ∧ (Perm.InTie (σ c) r ↔ Perm.InTie c r) :=
+  Perm.scoreVoting_symmetric σ hσ cfg p hsym n r hr c
+
+theorem pav_symmetric_candidates (σ : Cand → Cand) (hσ : Function.Injective σ) (p : Appr.Profile) (hwf : Appr.WF p)
+    (hsym : Perm.ApprSame p (Perm.renAppr σ p)) (n : Nat) (r : List Slot) (hr : Appr.pav p n = .ok r) (c : Cand) :
+    (Perm.Elected (σ c) r ↔ Perm.Elected c r) ∧ (Perm.InTie (σ c) r ↔ Perm.InTie c r) :=
+  Perm.pav_symmetric σ hσ p hwf hsym n r hr c
+
+theorem spav_symmetric_candidates (σ : Cand → Cand) (hσ : Function.Injective σ) (p : Appr.Profile) (hwf : Appr.WF p)
+    (hsym : Perm.ApprSame p (Perm.renAppr σ p)) (n : Nat) (r : List Cand) (hr : Appr.spav p n = .ok r) (c : Cand) :
+    σ c ∈ r ↔ c ∈ r := Perm.spav_symmetric σ hσ p hwf hsym n r hr c
+
 /-- the transposition of candidates 0 and 1 -/
 def swap01 : Cand → Cand := fun c => if c = 0 then 1 else if c = 1 then 0 else c
 
@@ -387,6 +598,12 @@ example : (Perm.renRProfile swap01 [([.one 0, .one 1, .one 2], 1), ([.one 1, .on
     [([.one 0, .one 1, .one 2], 1), ([.one 1, .one 0, .one 2], 1)] := by decide +kernel
 
 example : (renVotes swap01 [(0, 5), (1, 5), (2, 3)]).Perm [(0, 5), (1, 5), (2, 3)] := by decide +kernel
+
+example : Perm.ApprSame [([0, 2], 3), ([1, 2], 3), ([0, 1], 1)] (Perm.renAppr swap01 [([0, 2], 3), ([1, 2], 3), ([0, 1], 1)]) := by
+  decide +kernel
+
+example : ([([.one 0, .one 2], 2), ([.one 1, .one 2], 2)] : STV.Profile).Perm
+    (Perm.Stv.renPile swap01 [([.one 0, .one 2], 2), ([.one 1, .one 2], 2)]) := by decide +kernel
 
 /-- non-vacuity -/
 example : SlotsEquiv (getNBest [(1,5),(2,3),(3,3)] 2) (getNBest [(3,3),(1,5),(2,3)] 2) :=
